@@ -257,11 +257,8 @@ func durationVerdict(n num, dyn bool) verdict {
 	}
 	ns := bf().Mul(n.x, bigE9)
 	succeed := verdict{must: "succeed", why: "number of seconds within the Duration range (Unpack doc: a number setting converted to seconds)"}
-	if dyn {
-		// The library turns a dynamic value into text and hands it to time.ParseDuration, which rejects
-		// a bare number. The statement allows an error; the doc comment speaks of "a number setting".
-		succeed = verdict{must: "either", why: "number delivered by expansion into Duration", lax: "dynamic number into Duration may fail"}
-	}
+	// (a number that arrives through a reference, a resolver or a splice means seconds like a literal one: D75)
+	_ = dyn
 	if n.exact {
 		if ns.Cmp(bigMaxI64) > 0 || ns.Cmp(bigMinI64) < 0 {
 			return mustFail("second count outside +-2^63 ns")
